@@ -852,6 +852,8 @@ def run(ctx):
                 break
         nb_ = q.narrowed_char_eof_tests(fns_['overflow'])
         ctx.check(not nb_, R9, '%s:overflow:EOF-tested-on-the-int' % short, 'the overflowing character is compared with EOF after narrowing to char: byte 0xFF is dropped', fns_['overflow'].loc(nb_[0]) if nb_ else fns_['overflow'].where)
+        dr_ = q.overflow_drops_char(fns_['overflow'])
+        ctx.check(not dr_, R9, '%s:overflow:takes-the-character' % short, 'overflow(c) can report success without having taken c (neither stored, put nor handed on, and c was not EOF): the byte that did not fit is lost', fns_['overflow'].loc(dr_[0]) if dr_ else fns_['overflow'].where)
         dt = [g for g in fbs[rec] if g.kind == 'dtor' and g.body is not None]
         ctx.check(bool(dt) and any(q.short_of(dt[0].callee(i) or '') == 'release' for i in dt[0].calls()), R9, '%s:destructor-releases' % short,
                   'the destructor does not release(): an exception while the value is rendered leaves the stream pointing at a destroyed buffer', dt[0].where if dt else fns_['overflow'].where)
